@@ -11,6 +11,24 @@ ALL = [f"C{n:02d}" for n in range(1, 21)]
 
 # property -> (technique, level text, level note, design ref)
 CHECKS = {
+    "C05": (
+        "twin execution (differential oracle): the same recorded history run with caching forced off and run following its flag/pickle schedule, logs compared op by op; cache hits observed through the public statistics",
+        "Runtime monitor: histories interleaving every mutator with neighbors/find_links/traversal/search/render queries, cache-flag toggles, same-process nrpickler reloads and fresh-interpreter continuations are executed twice on the real code; every query result (or exception type) of the scheduled run must equal the caching-off run. After each mutation all keys queried so far are re-queried so no stale entry stays unread; the run counts cache hits observed after mutations, per mutator kind.",
+        "Trusted: driver canonicalisation to pool names; filters are importable pure functions.",
+        "DESIGN.md 4/C05",
+    ),
+    "C11": (
+        "postcondition oracle on the builders' result and on the untouched prior state (ordered per-vertex new links, member order, read-back through neighbors/find_links), error-path unchanged-snapshot monitor",
+        "Runtime monitor: load_adj_dict / load_adj_matrix are called with generated inputs (self, repeated and empty entries, generator rows, exotic truthy/falsy cells, duplicate side entries, malformed matrices) on fresh pools and on pools with prior links/universes; member order, class/orientation/creation order of every new link, preservation of all prior structure, neighbors/find_links read-back and ValueError-with-nothing-touched are checked.",
+        "Trusted: ~60-line expected-structure builder. Creation order is observed through ordered Vertex.links.",
+        "DESIGN.md 4/C11",
+    ),
+    "C12": (
+        "aliasing probes: every container returned by an accessor/query or passed to a constructor/builder is mutated, then the full snapshot and the repeated query are compared (caching off / cold / warm)",
+        "Runtime monitor: on pools reached by random histories, each returned collection is attacked with one of 12 list / 5 set / 6 mapping mutations and each input container is mutated after the call; the observable graph and the answer of the same query afterwards must be unchanged. Immutable containers count as protected.",
+        "Trusted: snapshot via public accessors. Only the exchanged container itself is attacked.",
+        "DESIGN.md 4/C12",
+    ),
     "C01": (
         "model-free invariant hook evaluated at every client-call boundary of generated call histories (bounded-exhaustive prelude + random), over everything reachable from the object pool",
         "Runtime monitor: after every op of every history (return or raise) the relation l in v.links <=> v in l.vertices and the no-duplicate rule are evaluated through the public accessors on all reachable objects. Histories: every op x every argument aliasing from 9 base states to depth 2/3, plus thousands of random 40-120-op histories on 3-5 vertices.",
